@@ -310,7 +310,10 @@ pub fn solve(seed: u64, n: usize, out: &str) {
     for i in 0..n {
         let k = 2 + r.below(5) as usize; // orders 2..6
         // interior knots (simple, or repeated where the site layout allows it)
-        let a = r.uniform(-2.0, 2.0);
+        // one scenario in five lives on an x-axis in SECONDS (knots years apart: 3e7 .. 1e9), the way the library's own
+        // curve splines are indexed by timestamps; derivative rows of the collocation matrix are then ~1e-16
+        let sc: f64 = if i % 5 == 4 { 31_536_000.0 } else { 1.0 };
+        let a = if sc > 1.0 { 0.0 } else { r.uniform(-2.0, 2.0) };
         let mut t = vec![a; k];
         let mut cur = a;
         let p = 1 + r.below(5) as usize;
@@ -321,14 +324,14 @@ pub fn solve(seed: u64, n: usize, out: &str) {
         // is admissible for simple knots only
         let repeats_ok = [0u64, 1, 6, 7].contains(&choice) && k >= 3;
         for _ in 0..p {
-            cur += r.uniform(0.4, 2.0);
+            cur += r.uniform(0.4, 2.0) * sc;
             let mult = if repeats_ok && r.chance(0.3) { 2 + r.below((k - 2) as u64) as usize } else { 1 };
             for _ in 0..mult.min(k - 1) {
                 t.push(cur);
             }
             interior.push(cur);
         }
-        cur += r.uniform(0.4, 2.0);
+        cur += r.uniform(0.4, 2.0) * sc;
         let b = cur;
         for _ in 0..k {
             t.push(b);
@@ -390,7 +393,7 @@ pub fn solve(seed: u64, n: usize, out: &str) {
                 let lsq = match r.below(3) {
                     0 => { tau.pop(); false }
                     1 => { tau.pop(); if tau.len() > 2 && r.coin() { tau.remove(1); } true }
-                    _ => { tau.push(b + 1.0); false }
+                    _ => { tau.push(b + 1.0 * sc); false }
                 };
                 (tau, 0, 0, lsq, "mismatch")
             }
@@ -398,7 +401,8 @@ pub fn solve(seed: u64, n: usize, out: &str) {
         };
         // data: from a polynomial of degree < k (half of the cases), otherwise arbitrary
         let use_poly = r.coin() && layout != "mismatch";
-        let poly: Vec<f64> = if use_poly { (0..(1 + r.below(k as u64) as usize)).map(|_| r.uniform(-1.0, 1.0)).collect() } else { vec![] };
+        // (coefficients in x / sc, so that the data stay of order one on the seconds axis too)
+        let poly: Vec<f64> = if use_poly { (0..(1 + r.below(k as u64) as usize)).map(|d| r.uniform(-1.0, 1.0) / sc.powi(d as i32)).collect() } else { vec![] };
         let pd = |x: f64, m: usize| -> f64 {
             // m-th derivative of the polynomial at x
             let mut c: Vec<f64> = poly.clone();
